@@ -64,8 +64,10 @@ def run(ctx):
             rule_route_pass(ctx, u)
         for u in units:
             rule_done(ctx, M, u)
+        from . import flow as _flow
         for u in units + pts:
             rule_scan(ctx, M, u)
+            _flow.rule_final_values(ctx, u.bi, "C01.DONE", u.where)
         if cfg != "core":
             # the groups scan their key set: a live member whose key is lost (a stale entry of the removal queue, a key
             # not inserted / wrongly removed) is never polled again although its wake-ups are forwarded
@@ -418,6 +420,9 @@ def live_premises(ctx, M, units, rule_id, with_globals=True):
         if not rule_id.startswith("C20."):
             for u in units:
                 rule_scan(ctx, M, u)
+        from . import flow as _flow
+        for u in units:
+            _flow.rule_final_values(ctx, u.bi, "C01.DONE", u.where)
         for u in units:
             if u.family in PASS_FAMILIES:
                 rule_route_pass(ctx, u)
